@@ -12,11 +12,22 @@ import (
 )
 
 // Param is one flat parameter. M: req | opt | grp | soft. O: 0 = positional, >0 = number of the
-// parameter object (a maximal run of equal O is one dig.In struct).
+// parameter object (a maximal run of equal O is one dig.In struct). P: path of nested parameter
+// objects below object O that hold the field (empty: a direct field of O); parameters with a
+// common path prefix are contiguous and sit in the same nested object.
 type Param struct {
 	K string `json:"k"`
 	M string `json:"m"`
 	O int    `json:"o"`
+	P []int  `json:"p,omitempty"`
+}
+
+// Path is the full object path of the parameter: empty for a positional parameter.
+func (p Param) Path() []int {
+	if p.O == 0 {
+		return nil
+	}
+	return append([]int{p.O}, p.P...)
 }
 
 // Result is one flat result. Ks: the keys it is stored under (several with As, all sharing one
@@ -183,7 +194,11 @@ func (c *Catalog) TLA() string {
 			if j > 0 {
 				b.WriteString(", ")
 			}
-			fmt.Fprintf(&b, "[k |-> %s, m |-> %s, o |-> %d]", q(p.K), q(p.M), p.O)
+			path := make([]string, 0, 1+len(p.P))
+			for _, x := range p.Path() {
+				path = append(path, fmt.Sprint(x))
+			}
+			fmt.Fprintf(&b, "[k |-> %s, m |-> %s, op |-> <<%s>>]", q(p.K), q(p.M), strings.Join(path, ", "))
 		}
 		b.WriteString(">>, rs |-> <<")
 		for j, r := range f.Rs {
